@@ -114,6 +114,12 @@ class Interp(object):
             raise Raised(name)
         elif isinstance(st, ast.Pass):
             return
+        elif isinstance(st, ast.AugAssign) and isinstance(st.target, ast.Name):
+            v = self.expr(ast.BinOp(left=ast.Name(id=st.target.id, ctx=ast.Load()), op=st.op, right=st.value), env)
+            env[st.target.id] = v
+        elif isinstance(st, ast.Assert):
+            if not self.truth(self.expr(st.test, env)):
+                raise Raised('AssertionError')
         else:
             raise Undecided('unsupported statement %s' % st.__class__.__name__)
 
@@ -163,6 +169,8 @@ class Interp(object):
             raise Undecided('unknown name %s' % e.id)
         if isinstance(e, ast.Attribute):
             d = ast.unparse(e)
+            if d in env:
+                return env[d]             # a field of an abstract object, supplied by the rule (e.g. 'self.ndim')
             if d in self.ext:
                 return ('builtin', d)
             if d in ('np.integer', 'np.ndarray'):
@@ -206,6 +214,10 @@ class Interp(object):
                 return a - b
             if isinstance(e.op, ast.Mult):
                 return a * b
+            if isinstance(e.op, (ast.Mod, ast.FloorDiv)) and isinstance(a, int) and isinstance(b, int):
+                if b == 0:
+                    raise Raised('ZeroDivisionError')
+                return a % b if isinstance(e.op, ast.Mod) else a // b
             raise Undecided('operator')
         if isinstance(e, ast.UnaryOp):
             v = self.expr(e.operand, env)
